@@ -7,10 +7,6 @@ mkdir -p .bin evidence
 rc=0
 for d in props/*/; do
   lc=$(basename "$d")
-  if [ -x "$d/build.sh" ]; then
-    "$d/build.sh" "$lc" --build-only || rc=2
-  else
-    go build -tags verif -o ".bin/$lc" "./$d" || rc=2
-  fi
+  ./run "$lc" --build-only || rc=2
 done
 exit $rc
